@@ -1,27 +1,287 @@
-//! C11 — stub, not built yet.
+//! C11 CBOR round trip preserves the store and all of its indices.
 
 use crate::engine::*;
+use crate::hist::*;
+use crate::observe::*;
+use crate::props::c05::{final_store, TempDir};
 use proptest::prelude::*;
+use serde::{Deserialize, Serialize};
+use stam::*;
 
 pub struct C11;
 
+#[derive(Clone, Debug, Serialize, Deserialize)]
+pub struct Case {
+    pub hist: History,
+    /// load with a non-default configuration (shrink_to_fit)
+    pub shrink: bool,
+    /// milestone interval of the store that is saved
+    pub milestone: u8,
+}
+
+/// a battery of searches / queries whose answers must be identical before and after
+fn battery(store: &AnnotationStore) -> Vec<String> {
+    let mut v = vec![];
+    for r in store.resources() {
+        let t: Vec<String> = r.find_text("a").map(|t| format!("{}-{}", t.begin(), t.end())).collect();
+        v.push(format!("find_text(a)@{}={:?}", r.handle().as_usize(), t));
+        let t: Vec<String> = r.find_text(" ").map(|t| format!("{}-{}", t.begin(), t.end())).collect();
+        v.push(format!("find_text( )@{}={:?}", r.handle().as_usize(), t));
+        let n = r.text().chars().count();
+        let conv: Vec<String> = (0..=n)
+            .map(|p| format!("{:?}", r.utf8byte(p).ok().map(|b| (b, r.utf8byte_to_charpos(b).ok()))))
+            .collect();
+        v.push(format!("utf8@{}={:?}", r.handle().as_usize(), conv));
+        let pos: Vec<usize> = r.as_ref().positions(PositionMode::Both).copied().collect();
+        v.push(format!("positions@{}={:?}", r.handle().as_usize(), pos));
+        v.push(format!("byte2char@{}={:?}", r.handle().as_usize(), r.as_ref().verif_byte2charmap()));
+        let seg: Vec<String> = r.segmentation().map(|t| format!("{}-{}", t.begin(), t.end())).collect();
+        v.push(format!("segmentation@{}={:?}", r.handle().as_usize(), seg));
+        for ts in r.textselections().take(6) {
+            for op in [
+                TextSelectionOperator::overlaps(),
+                TextSelectionOperator::embeds(),
+                TextSelectionOperator::embedded(),
+                TextSelectionOperator::before(),
+                TextSelectionOperator::after(),
+                TextSelectionOperator::precedes(),
+                TextSelectionOperator::succeeds(),
+                TextSelectionOperator::samebegin(),
+            ] {
+                let rel: Vec<String> = ts.related_text(op).map(|t| format!("{}-{}", t.begin(), t.end())).collect();
+                v.push(format!("related({})@{}:{}-{}={:?}", op.as_str(), r.handle().as_usize(), ts.begin(), ts.end(), rel));
+            }
+        }
+    }
+    let d: Vec<(usize, usize)> = store
+        .find_data(false, false, DataOperator::Any)
+        .map(|d| (d.set().handle().as_usize(), d.handle().as_usize()))
+        .collect();
+    v.push(format!("find_data(any)={:?}", d));
+    let d: Vec<(usize, usize)> = store
+        .find_data(false, false, DataOperator::Equals("noun".into()))
+        .map(|d| (d.set().handle().as_usize(), d.handle().as_usize()))
+        .collect();
+    v.push(format!("find_data(noun)={:?}", d));
+    for q in [
+        "SELECT ANNOTATION ?a",
+        "SELECT DATA ?d",
+        "SELECT TEXT ?t",
+        "SELECT RESOURCE ?r",
+        "SELECT ANNOTATION ?a WHERE DATA \"s2\" \"pos\";",
+        "SELECT ANNOTATION ?a WHERE TEXT \"a\";",
+    ] {
+        let res: Result<Vec<String>, String> = (|| {
+            let query: Query = q.try_into().map_err(|e: StamError| format!("{}", e))?;
+            let mut out = vec![];
+            for r in store.query(query).map_err(|e| format!("{}", e))? {
+                for item in r.iter() {
+                    out.push(match item {
+                        QueryResultItem::Annotation(a) => format!("A{}", a.handle().as_usize()),
+                        QueryResultItem::AnnotationData(d) => format!("D{}.{}", d.set().handle().as_usize(), d.handle().as_usize()),
+                        QueryResultItem::TextSelection(t) => format!("T{}:{}-{}", t.resource().handle().as_usize(), t.begin(), t.end()),
+                        QueryResultItem::TextResource(r) => format!("R{}", r.handle().as_usize()),
+                        _ => "?".to_string(),
+                    });
+                }
+            }
+            Ok(out)
+        })();
+        v.push(format!("{} => {:?}", q, res));
+    }
+    v
+}
+
 impl Property for C11 {
-    type Case = u8;
+    type Case = Case;
     fn id(&self) -> &'static str {
         "C11"
     }
     fn rule(&self) -> String {
-        "not built yet".into()
+        "case = final store of a C01 history (removals, text protection, complex selectors, milestone interval 0/1/3/100) saved with a .cbor name and loaded again (default config or shrink_to_fit). Oracle: the complete observation with handles (all items, forward views, every reverse lookup) is equal; the raw dump of every reverse index, id map, key->data map, position index and byte->char map is equal entry by entry; the reloaded store passes the C01 self-consistency battery; a battery of searches and queries (find_text, byte/char conversion, positions, segmentation, related_text under 8 operators, find_data, 6 queries) gives identical answers; a second save/load generation yields the same observation (byte identity of the file is not required: id maps are hash maps). Non-trivial = the store has a gap or was text-protected, and has at least one complex selector; distinct = distinct case JSON.".into()
     }
-    fn cases(&self, _tier: Tier) -> u64 {
-        0
+    fn cases(&self, tier: Tier) -> u64 {
+        tier.pick(12_000, 250_000)
     }
-    fn strategy(&self, _tier: Tier) -> BoxedStrategy<u8> {
-        any::<u8>().boxed()
+    fn strategy(&self, tier: Tier) -> BoxedStrategy<Case> {
+        let cfg = HistCfg {
+            max_ops: tier.pick(18, 45),
+            text_max: 20,
+            removal_weight: 3,
+            protect_weight: 2,
+            complex_weight: 3,
+            ..HistCfg::default()
+        };
+        (history_strategy(cfg), any::<bool>(), 0u8..4)
+            .prop_map(|(hist, shrink, milestone)| Case { hist, shrink, milestone })
+            .boxed()
     }
-    fn run(&self, _case: &u8) -> Outcome {
-        let mut o = Outcome::new();
-        o.skip("not built");
-        o
+
+    fn run(&self, case: &Case) -> Outcome {
+        let mut out = Outcome::new();
+        // build with the requested milestone interval
+        let interval = [0usize, 1, 3, 100][case.milestone as usize % 4];
+        let mut m = Machine::with_config(case.hist.hostile, Config::default().with_milestone_interval(interval));
+        for op in &case.hist.ops {
+            let s = m.apply(op);
+            if s.skipped.is_some() {
+                continue;
+            }
+            if s.panic.is_some() || s.result.is_err() || s.mismatch.is_some() {
+                out.label("stopped_at_foreign_divergence");
+                return out;
+            }
+            if op.is_removal() {
+                out.label("has_gap");
+            }
+            if matches!(op, Op::ProtectText { .. }) {
+                out.label("protected");
+            }
+        }
+        let _ = final_store;
+        let mut store = m.store;
+        let before = match catch(|| (observe(&store), battery(&store), store.verif_dump())) {
+            Ok(x) => x,
+            Err(_) => {
+                out.label("stopped_at_foreign_divergence");
+                return out;
+            }
+        };
+        let (obs, bat, dump) = before;
+        if obs.anns.iter().any(|a| a.target.is_complex()) {
+            out.label("complex_selector");
+            if out.labels.iter().any(|l| l == "has_gap" || l == "protected") {
+                out.nontrivial = true;
+            }
+        }
+        if obs.anns.iter().any(|a| a.ranged) {
+            out.label("range_compressed");
+        }
+        let set_dumps: Vec<_> = store.datasets().map(|d| d.as_ref().verif_dump()).collect();
+        let dir = TempDir::new("c11");
+        let f = dir.path("x.store.stam.cbor");
+        match catch(|| store.to_file(&f)) {
+            Ok(Ok(())) => {}
+            Ok(Err(e)) => {
+                out.fail("save", "err", format!("saving as CBOR failed: {}", e));
+                return out;
+            }
+            Err(p) => {
+                out.fail("save", p.signature(), format!("saving as CBOR panicked at {}:{}: {}", p.file, p.line, p.msg));
+                return out;
+            }
+        }
+        let cfg = if case.shrink { Config::default().with_shrink_to_fit(true) } else { Config::default() };
+        out.label(if case.shrink { "load_shrink" } else { "load_default" });
+        let store2 = match catch(|| AnnotationStore::from_file(&f, cfg)) {
+            Ok(Ok(s)) => s,
+            Ok(Err(e)) => {
+                out.fail("load", "err", format!("loading the saved CBOR failed: {}", e));
+                return out;
+            }
+            Err(p) => {
+                out.fail("load", p.signature(), format!("loading the saved CBOR panicked at {}:{}: {}", p.file, p.line, p.msg));
+                return out;
+            }
+        };
+        let after = match catch(|| (observe(&store2), battery(&store2), store2.verif_dump())) {
+            Ok(x) => x,
+            Err(p) => {
+                out.fail("load", format!("traverse|{}", p.signature()), format!("traversing the loaded store panicked at {}:{}: {}", p.file, p.line, p.msg));
+                return out;
+            }
+        };
+        let (obs2, bat2, dump2) = after;
+        out.checks += 4;
+        if obs != obs2 {
+            // find the first differing part
+            let what = if obs.resources != obs2.resources {
+                "resources"
+            } else if obs.sets != obs2.sets {
+                "datasets"
+            } else if obs.anns != obs2.anns {
+                "annotations"
+            } else {
+                "index_totalcount"
+            };
+            let detail = match what {
+                "resources" => format!("{:?} vs {:?}", obs.resources, obs2.resources),
+                "datasets" => format!("{:?} vs {:?}", obs.sets, obs2.sets),
+                "annotations" => format!("{:?} vs {:?}", obs.anns, obs2.anns),
+                _ => format!("{:?} vs {:?}", obs.index_totalcount, obs2.index_totalcount),
+            };
+            out.fail("observation", what, format!("the loaded store answers differently: {}", detail));
+        }
+        if dump != dump2 {
+            let which = [
+                ("dataset_data_annotation_map", dump.dataset_data_annotation_map != dump2.dataset_data_annotation_map),
+                ("textrelationmap", dump.textrelationmap != dump2.textrelationmap),
+                ("resource_annotation_metamap", dump.resource_annotation_metamap != dump2.resource_annotation_metamap),
+                ("dataset_annotation_metamap", dump.dataset_annotation_metamap != dump2.dataset_annotation_metamap),
+                ("annotation_annotation_map", dump.annotation_annotation_map != dump2.annotation_annotation_map),
+                ("key_annotation_metamap", dump.key_annotation_metamap != dump2.key_annotation_metamap),
+                ("data_annotation_metamap", dump.data_annotation_metamap != dump2.data_annotation_metamap),
+                ("annotation_idmap", dump.annotation_idmap != dump2.annotation_idmap),
+                ("resource_idmap", dump.resource_idmap != dump2.resource_idmap),
+                ("dataset_idmap", dump.dataset_idmap != dump2.dataset_idmap),
+            ];
+            for (name, differs) in which {
+                if differs {
+                    out.fail("index", name, format!("index {} differs after the round trip: {:?} vs {:?}", name, dump, dump2));
+                }
+            }
+            if out.failures.is_empty() {
+                out.fail("index", "other", "index dump differs".to_string());
+            }
+        }
+        let set_dumps2: Vec<_> = store2.datasets().map(|d| d.as_ref().verif_dump()).collect();
+        if set_dumps != set_dumps2 {
+            out.fail("index", "dataset-maps", format!("dataset id maps / key->data maps differ: {:?} vs {:?}", set_dumps, set_dumps2));
+        }
+        if bat != bat2 {
+            let first = bat.iter().zip(bat2.iter()).find(|(a, b)| a != b);
+            let name = first.map(|(a, _)| a.split(|c| c == '@' || c == '=').next().unwrap_or("?").to_string()).unwrap_or_default();
+            out.fail("battery", name.replace(' ', "_"), format!("a search answers differently after the round trip: {:?}", first));
+        }
+        if !out.failures.is_empty() {
+            return out;
+        }
+        // self-consistency of the loaded store (position index vs text selections etc.)
+        let mut sc = crate::hcheck::StepCheck {
+            findings: vec![],
+            diverged: false,
+            obs: None,
+            checks: 0,
+        };
+        if catch(|| crate::hcheck::check_consistency(&store2, &obs2, &mut sc, None)).is_ok() {
+            out.checks += sc.checks;
+            for fnd in sc.findings {
+                out.fail(&format!("loaded.{}", fnd.failure.facet), fnd.failure.signature, fnd.failure.detail);
+            }
+        }
+        // second generation: saving the loaded store and loading that again must give the same store
+        // (byte identity is NOT required: id maps are hash maps whose iteration order differs per instance)
+        let f2 = dir.path("y.store.stam.cbor");
+        let mut store2 = store2;
+        match catch(|| store2.to_file(&f2)) {
+            Ok(Ok(())) => match catch(|| AnnotationStore::from_file(&f2, Config::default())) {
+                Ok(Ok(store3)) => {
+                    out.checks += 1;
+                    match catch(|| observe(&store3)) {
+                        Ok(obs3) => {
+                            if obs3 != obs2 {
+                                out.fail("second-generation", "observation", "the store differs after a second save/load cycle".to_string());
+                            }
+                        }
+                        Err(p) => out.fail("second-generation", p.signature(), format!("traversing the second-generation store panicked: {}", p.msg)),
+                    }
+                }
+                Ok(Err(e)) => out.fail("second-generation", "load-err", format!("loading the second save failed: {}", e)),
+                Err(p) => out.fail("second-generation", p.signature(), format!("loading the second save panicked: {}", p.msg)),
+            },
+            Ok(Err(e)) => out.fail("second-generation", "save-err", format!("second save failed: {}", e)),
+            Err(p) => out.fail("second-generation", p.signature(), format!("second save panicked: {}", p.msg)),
+        }
+        out
     }
 }
